@@ -82,6 +82,11 @@ def run_program(binary, text, workdir, tag, extra_args=(), extra_env=None):
     return p.returncode, p.stdout, p.stderr, events
 
 
+def printed_sizes(stdout):
+    """the numbers printed by `(print-size ..)` commands, in program order"""
+    return [int(l) for l in (x.strip() for x in stdout.splitlines()) if re.fullmatch(r"\d+", l)]
+
+
 def _sexp(toks, i):
     if toks[i] == "(":
         i += 1
@@ -1140,7 +1145,8 @@ def work_item(args):
                                     head=companion[1])
                 if len(ef) <= 30000:
                     exp_full["OutC"] = ef
-            tail = (tail or []) + ["(print-function %s 40000)" % o for o in sorted(exp_full)]
+            for o in sorted(exp_full):
+                tail = (tail or []) + ["(print-function %s 40000)" % o, "(print-size %s)" % o]
         text = gen.render_program(atoms, no_decomp, profile, steps, seed=seed, rules=rules, head=head, tail=tail, companion=companion)
         rc, out, err, events = run_program(binary, text, workdir, tag)
         check_failed = False
@@ -1161,6 +1167,18 @@ def work_item(args):
             else:
                 res["errors"].append("egglog exited %d on generated program %s: %s" % (rc, tag, err[-400:]))
             return res
+        # the printed tables must parse completely (guards the comparisons below against a change of output format)
+        printed = sorted(exp_full) + [o + "S" for _rs, (o, _x) in sorted(rules.items())]
+        sizes = printed_sizes(out)
+        if len(sizes) != len(printed):
+            res["errors"].append("%s: expected %d print-size lines in the output, found %d (output format changed?)" % (tag, len(printed), len(sizes)))
+            return res
+        for rel_, n_ in zip(printed, sizes):
+            got_ = len(parse_out(out, rel_, raw=True))
+            if got_ != n_ and n_ <= 40000:
+                res["errors"].append("%s: print-size says %s has %d rows but %d were parsed from print-function (output format changed?)"
+                                     % (tag, rel_, n_, got_))
+                return res
         funcs = [e for e in events if e["ev"] == "funcs"][-1]
         V = Validator(atoms, funcs, head=head)
         base = profile_db(atoms, profile, seed, V.tid_of) if V.projecting else {}
